@@ -743,6 +743,20 @@ func (w *world) corpus() []struct {
 		{Host: "dup.test:443", Path: "/page", Cookie: none},
 		{Host: "dup.test.", Path: "/page", Cookie: none},
 	})
+	// empty Host: only a catch-all pattern routes it; under preserve_host net/http falls back to the
+	// target's authority for the outgoing Host header
+	add(doc{Default: "google", Svcs: []svcSpec{
+		{Name: "all", Up: upSpec{Route: routeSpec{Rewrite: true, From: `^.*$`, To: b0}, Doms: dom("*"), Preserve: true, Skip: []string{`\.css$`}}},
+		{Name: "st", Up: upSpec{Route: routeSpec{From: "a.test/path", To: b1}, Doms: dom("a.com"), Preserve: true}},
+	}}, []plan{
+		{Login: true, Host: "", Email: "bob@a.com"},
+		{Host: "", Path: "/page", Cookie: cref{Kind: "issued", J: 0}},
+		{Host: "a.test", Path: "/page", Cookie: cref{Kind: "issued", J: 0}},
+		{Host: "", Path: "/x.css", Cookie: none},
+		{Host: "other.example", Path: "/page", Cookie: cref{Kind: "minted", Minted: &sess{Slug: "google", Upstream: "other.example", Email: "eve@evil.com"}}},
+		{Host: "a.test", Path: "/page", Cookie: cref{Kind: "minted", Minted: &sess{Slug: "google", Upstream: "a.test", Email: "bob@a.com"}}},
+		{Host: "a.test", Path: "/page", Cookie: cref{Kind: "minted", Minted: &sess{Slug: "google", Upstream: "", Email: "bob@a.com"}}},
+	})
 	return out
 }
 
